@@ -227,6 +227,7 @@ func runC03(c *Ctx, r *Rec) {
 	checkReceiverWrites(c, r, "D1-receiver-writes-persist", cat)
 	checkAssociationKeyFrozen(c, r, "D1-association-key-frozen")
 	checkResetCompleteness(c, r, "D1-reset-complete", cat)
+	checkTypeLockPairing(c, r, "D1-lock-released", cat)
 	for _, name := range sortedKeys(ms) {
 		fd := ms[name]
 		if !ast.IsExported(name) {
